@@ -673,6 +673,28 @@ def c10(tr, cx):
             for (date, pre, post, t), (bt, bv) in zip(evs, b):
                 tr.count('C10.batches')
                 if post - pre != bv: tr.v('C10', 'batch_size_not_honoured', (key, t, bv, post - pre))
+    # every stream draws from its own copy of the distribution the user gave for it: a deterministic (Sequential / Deterministic)
+    # stream must see exactly its own cyclic sequence, whatever other streams (even ones given the same object) consume
+    def spec_of(stream):
+        kind = stream[0]
+        try:
+            if kind == 'arr': return spec['arrivals'][stream[2]][stream[1] - 1]
+            if kind == 'srv': return spec['services'][stream[2]][stream[1] - 1]
+            if kind == 'bat': return (spec['batching'][stream[2]][stream[1] - 1] or {'d': 'det', 'v': 1}) if spec.get('batching') else None
+            if kind == 'ren': return spec['reneging'][stream[2]][stream[1] - 1] if spec.get('reneging') else None
+            if kind == 'cct': return (spec.get('cct') or {}).get(stream[1], {}).get(stream[2])
+        except (KeyError, IndexError):
+            return None
+    per_stream = collections.defaultdict(list)
+    for (stream, t, ind, v) in slog: per_stream[stream].append(v)
+    for stream, vals in per_stream.items():
+        d = spec_of(stream)
+        if not d or d['d'] not in ('seq', 'det'): continue
+        cyc = d['s'] if d['d'] == 'seq' else [d['v']]
+        tr.count('C10.deterministic_streams')
+        for k_, v in enumerate(vals):
+            if v != cyc[k_ % len(cyc)]:
+                tr.v('C10', 'stream_did_not_get_its_own_sequence', (stream, k_, v, cyc[:6])); break
     # services at ordinary nodes: each completed never-interrupted service lasts exactly its sample
     srv = collections.defaultdict(list)
     for (stream, t, ind, v) in slog:
